@@ -26,8 +26,8 @@ EXT = {'flags': 'txt', 'env': 'env', 'exec': 'sh'}
 def cases(tier):
     cs = []
 
-    def add(name, text, expect_ok, fmt=None, outs=1, src='conf.ucg'):
-        cs.append({'name': name, 'text': text, 'ok': expect_ok, 'fmt': fmt, 'outs': outs, 'src': src})
+    def add(name, text, expect_ok, fmt=None, outs=1, src='conf.ucg', files=None):
+        cs.append({'name': name, 'text': text, 'ok': expect_ok, 'fmt': fmt, 'outs': outs, 'src': src, 'files': files or {}})
     add('flags-ok', 'let v = {a = %s, bb = "x y", c = [1, %s]};\nlet s = convert flags v;\nout flags v;\n' % (P(1), P(2)), True, 'flags')
     add('env-ok', 'let v = {A = %s, B = "it\'s"};\nlet s = convert env v;\nout env v;\n' % P(1), True, 'env')
     add('exec-ok', 'let v = {command = "run", args = ["a b", {n = %s}], env = {X = "1"}};\nlet s = convert exec v;\nout exec v;\n' % P(1), True, 'exec')
@@ -42,6 +42,17 @@ def cases(tier):
     add('unknown-converter', 'out nosuchformat {a = %s};\n' % P(1), False, None)
     add('two-outs', 'out flags {a = %s};\nout flags {b = 1};\n' % P(1), False, 'flags', outs=2)
     add('two-outs-different-formats', 'out flags {a = %s};\nout env {B = 1};\n' % P(1), False, 'flags', outs=2)
+    # the one-output rule holds whatever is evaluated between the two statements (an import runs a nested evaluation)
+    lib = {'lib.ucg': 'let x = 1;\n', 'lib2.ucg': 'let y = import "./lib.ucg";\n'}
+    add('two-outs-import-between', 'out flags {a = %s};\nlet l = import "./lib.ucg";\nout flags {b = l.x};\n' % P(1), False, 'flags', outs=2, files=lib)
+    add('two-outs-import-between-different-formats', 'out flags {a = %s};\nlet l = import "./lib.ucg";\nout env {B = l.x};\n' % P(1), False, 'flags', outs=2, files=lib)
+    add('two-outs-nested-import-between', 'out flags {a = %s};\nlet l = import "./lib2.ucg";\nout flags {b = 1};\n' % P(1), False, 'flags', outs=2, files=lib)
+    add('two-outs-cached-import-between', 'let k = import "./lib.ucg";\nout flags {a = %s};\nlet l = import "./lib.ucg";\nout flags {b = l.x};\n' % P(1), False, 'flags', outs=2, files=lib)
+    add('two-outs-include-between', 'out flags {a = %s};\nlet l = include str "./lib.ucg";\nout flags {b = 1};\n' % P(1), False, 'flags', outs=2, files=lib)
+    add('import-then-out', 'let l = import "./lib.ucg";\nout flags {a = l.x, b = %s};\n' % P(1), True, 'flags', files=lib)
+    add('out-then-import', 'out flags {a = %s};\nlet l = import "./lib.ucg";\n' % P(1), True, 'flags', files=lib)
+    if tier == 'thorough':
+        add('two-outs-std-import-between', 'out flags {a = %s};\nlet l = import "std/tuples.ucg";\nout flags {b = 1};\n' % P(1), False, 'flags', outs=2)
     add('no-out', 'let v = {a = %s};\n' % P(1), True, None, outs=0)
     add('error-after-out', 'out flags {a = %s};\nlet x = nosuch;\n' % P(1), False, 'flags')
     add('error-before-out', 'let x = 1 / (%s - %s);\nout flags {a = x};\n' % (P(1), P(1)), False, 'flags')
@@ -90,6 +101,8 @@ def harness(ctx, case):
     ucgrun.install_parse_override(prog)
     src = '/cwd/' + case.get('src', 'conf.ucg')
     ctx.fs[src] = case['text']
+    for name, text in case.get('files', {}).items():
+        ctx.fs['/cwd/' + name] = text
     ints = {i: ctx.bv('a%d' % i, 64) for i in (1, 2) if SP.ph(i) in case['text']}
     ctx.parse_subst = {'ints': ints}
     env = ucgrun.make_env(ctx)
@@ -112,7 +125,7 @@ def harness(ctx, case):
         m = ctx.model()
         text = SP.render_text(case['text'], m, ctx, ints)
         out['violations'].append({'key': 'C14:%s:%s' % (key, case['name']), 'what': what + ' — %s: %r' % (case.get('src', 'conf.ucg'), text),
-                                  'case': {'kind': 'cli-build', 'text': text, 'src': case.get('src', 'conf.ucg')}, 'kind': key, 'fmt': case['fmt'],
+                                  'case': {'kind': 'cli-build', 'text': text, 'src': case.get('src', 'conf.ucg'), 'files': case.get('files', {})}, 'kind': key, 'fmt': case['fmt'],
                                   'expect_ok': not failed if case['ok'] is None else case['ok'], 'want': [w[len('/cwd/'):] for w in (want if not failed else [])]})
 
     out['asserts'] += 1
@@ -123,7 +136,7 @@ def harness(ctx, case):
         out['asserts'] += 1
         # all or nothing: a failing build must not create (= truncate) an artifact ... unless an earlier `out` of the
         # same file succeeded before the failure (then that one artifact is complete)
-        complete_first = case['name'] in ('two-outs', 'two-outs-different-formats', 'error-after-out')
+        complete_first = case['outs'] == 2 or case['name'] == 'error-after-out'
         if creates and not complete_first:
             report('artifact-touched-by-failed-build', 'the build fails but %s was created/truncated' % creates)
             return out
@@ -168,16 +181,18 @@ def judge(fw, v):
     with tempfile.TemporaryDirectory(prefix='ucg-verif-c14-') as d:
         os.makedirs(os.path.dirname(os.path.join(d, srcname)), exist_ok=True)
         open(os.path.join(d, srcname), 'w').write(c['text'])
+        for name, text in (c.get('files') or {}).items():
+            open(os.path.join(d, name), 'w').write(text)
         if v['kind'] == 'wrong-artifact-name':
             r = fw.native().cli(['build', srcname], d)
-            made = sorted(os.path.relpath(os.path.join(dp, f), d) for dp, _, fs in os.walk(d) for f in fs if os.path.join(dp, f) != os.path.join(d, srcname))
+            made = sorted(os.path.relpath(os.path.join(dp, f), d) for dp, _, fs in os.walk(d) for f in fs if os.path.join(dp, f) != os.path.join(d, srcname) and f not in (c.get('files') or {}))
             fw.replayed += 1
             v['native'] = {'rc': r['rc'], 'artifacts': made}
             return made != sorted(v.get('want') or [])
         if v['kind'] == 'artifact-not-truncated':
             # build into an empty directory, then again over a much longer earlier artifact: same bytes expected
             r0 = fw.native().cli(['build', srcname], d)
-            made = [f for f in os.listdir(d) if f != srcname and os.path.isfile(os.path.join(d, f))]
+            made = [f for f in os.listdir(d) if f != srcname and f not in (c.get('files') or {}) and os.path.isfile(os.path.join(d, f))]
             clean = {f: open(os.path.join(d, f), 'rb').read() for f in made}
             for f in made:
                 open(os.path.join(d, f), 'wb').write(b'X' * 4096)
